@@ -56,7 +56,9 @@ def array_forms(u, c, vals, kind, with_unit_only):
     import numpy as np
     from barril.units import Array, FixedArray, ObtainQuantity
 
-    mk = {"list": list, "tuple": tuple, "nd": lambda x: np.array(x, dtype=float)}[kind]
+    mk = {"list": list, "tuple": tuple, "nd": lambda x: np.array(x, dtype=float),
+          # rows of values (k tuples of w numbers, k != w): the dimension is the number of rows
+          "rows": lambda x: [(t, t + 1.0, t + 2.0, 0.5) for t in x], "rows-tuple": lambda x: tuple((t, 1.0) for t in x)}[kind]
     n = len(vals)
     F = [
         ("Array(values,u,c)", lambda: Array(mk(vals), u, c)),
@@ -340,6 +342,40 @@ def value_kinds(ctx, db):
     ctx.count("kinds of number handed to every Scalar form", len(kinds) * 4)
 
 
+def rows_and_subclasses(ctx, db):
+    """Two corners of the forms: containers that are rows of values (the dimension of a FixedArray is the number of rows, also
+    when it is not told), and an application subclass of Scalar, whose repr evaluates back to an equal object of its class."""
+    from barril.units import Scalar
+
+    for u, c in (("m", "length"), ("degC", "temperature"), ("1000ft3/d", "volume flow rate")):
+        for kind in ("rows", "rows-tuple"):
+            for vals in ([1.0, 2.0, 3.0], [5.0, -1.0], [1.0, 2.0, 3.0, 4.0, 5.0]):
+                case = {"unit": u, "category": c, "container": kind, "rows": len(vals)}
+                ctx.nt(("rows", u, kind, len(vals)))
+                fa, ga = array_forms(u, c, vals, kind, True)
+                compare_forms(ctx, fa, case, "Array[%s]" % kind)
+                compare_forms(ctx, ga, case, "FixedArray[%s]" % kind)
+
+    class AppScalar(Scalar):
+        pass
+
+    for u, c, v in (("m", "length", 2.5), ("degC", "temperature", -40.0), ("1000ft3/d", "volume flow rate", 7.0), ("psi", "pressure", 0.0)):
+        ctx.ev()
+        case = {"unit": u, "category": c, "value": v, "class": "an application subclass of Scalar"}
+        try:
+            x = AppScalar(c, v, u)
+            back = eval(repr(x), {"Scalar": Scalar, "AppScalar": AppScalar})
+            if type(back) is not AppScalar or not (back == x) or back != x:
+                ctx.violation("Scalar:eval-repr-of-a-subclass-instance-is-another-object", dict(case, repr=repr(x), evaluates_to=repr(back), its_class=type(back).__name__))
+            forms = [("cls(c,v,u)", x), ("cls(v,u,c)", AppScalar(v, u, c)), ("cls.CreateWithQuantity", AppScalar.CreateWithQuantity(x.GetQuantity(), v)), ("x.CreateCopy()", x.CreateCopy()), ("cls((v,u))", AppScalar((v, u)))]
+            for name, o in forms[1:]:
+                if type(o) is not AppScalar or same(x, o):
+                    ctx.violation("Scalar:forms-differ:cls(c,v,u)<>%s" % name, dict(case, a=repr(x), b=repr(o), b_class=type(o).__name__))
+        except Exception as e:
+            ctx.violation("Scalar:subclass-form-raised:%s" % type(e).__name__, dict(case, error=str(e)[:160]))
+    ctx.count("application subclasses of Scalar through the forms", 4)
+
+
 def registered_later(ctx):
     """The forms on a database built by hand, in the orders a program may register things: units first, then questions
     about them (which find no category yet - unit-only forms fail, as they must), then the categories; or categories
@@ -518,6 +554,7 @@ def run(ctx):
         category_sweep_under_a_unit_system(ctx, db)
         if ctx.shard == 0:
             value_kinds(ctx, db)
+            rows_and_subclasses(ctx, db)
         if ctx.shard == 0:
             ctx.sample({"unit": "cP", "default category": db.GetDefaultCategory("cP"), "forms": [n for n, _ in scalar_forms("cP", "x", 1.0, True)]})
     if ctx.shard == 0:
